@@ -684,6 +684,7 @@ spec(_du + 'check_descriptor_length', descriptor=desc_dict('n_cond'), n_element=
 spec(_du + 'check_descriptor_length_error', descriptor=desc_dict('n_cond'), name=const('x'),
      n_element=dimlit('n_cond'))
 spec(_du + 'desc_eq', a=desc_dict('n_cond'), b=desc_dict('n_cond'))
+spec(_du + 'dict_eq', a=desc_dict('n_cond'), b=desc_dict('n_cond'))   # added by a pending fix (C16)
 spec(_du + 'dict_to_list', d_dict=desc_dict('n_cond'))
 spec(_du + 'format_descriptor', descriptors=desc_dict('n_cond'))
 spec(_du + 'parse_input_descriptor', descriptors=one_of(desc_dict('n_cond'), const(None)))
